@@ -942,7 +942,7 @@ func checkLateRow(e *Env, sp *evSpec, l *evLedger, er *evRow, covers []interval,
 				}
 			}
 			e.Violate("C02/expired-late-row-changed-result", site, "row %s ts=%s arrived when the watermark %s had passed end+ALLOWEDLATENESS (%s) of window [%s,%s), yet it is aggregated there", er.ID, fmtNS(er.TS), fmtNS(er.WM), fmtNS(r.WE+sp.AL), fmtNS(r.WS), fmtNS(r.WE))
-			return
+			break // one report per row; the late-update clause below is judged as well
 		}
 	}
 	if sp.AL == 0 {
